@@ -661,12 +661,50 @@ package gen
 //@   ensures[C01] old(#f.Defs) >= 1 && old(#f.Reps) == old(#f.Defs) ==> #f.Reps == #f.Defs
 //@ end template
 
+// C01/C04: reading a column chunk leaves values and levels aligned: a required column gains
+// exactly the chunk's value count, an optional column ends up with as many values as it has
+// definition levels equal to the column's maximum (whatever the page split).
+//@ pred nonNull(f) := cntEq(HA(f.Defs), off(f.Defs), #f.Defs, f.MaxLevels.Def)
 //@ template T in Int32 Int64 Uint32 Uint64 Float32 Float64
+//@ func (*{T}Field).Read
+//@   verify[C01]
+//@   requires f != nil && external(r)
+//@   free-requires pg.N >= 0
+//@   modifies f, HA(f.vals), heap("parquet.readCounter"), srcPos, rd, vPage, vDefs, curNV
+//@   ensures[C10] err == nil ==> (rfault ==> old(rfault))
+//@   ensures[C01,C04] err == nil ==> #f.vals == old(#f.vals) + pg.N
+//@ func (*{T}OptionalField).Read
+//@   verify[C01]
+//@   requires f != nil && external(r)
+//@   free-requires 1 <= f.MaxLevels.Def && f.MaxLevels.Def <= 15 && f.MaxLevels.Rep <= 15 && (f.repeated ==> 1 <= f.MaxLevels.Rep)
+// (arrays of different element types never alias in Go; the verifier's heap merges them by SMT sort)
+//@   free-requires ref(f.vals) == 0 || (ref(f.vals) != ref(f.Defs) && ref(f.vals) != ref(f.Reps))
+//@   modifies f, HA(f.vals), HA(f.Defs), HA(f.Reps), heap("parquet.readCounter"), srcPos, rd, vPage, vDefs, curNV
+//@   ensures[C10] err == nil ==> (rfault ==> old(rfault))
+//@   ensures[C01,C04] err == nil ==> #f.vals == nonNull(f)
 //@ end template
+//@ func (*StringField).Read
+//@   verify[C01]
+//@   requires f != nil && external(r)
+//@   free-requires pg.N >= 0
+//@   modifies f, HA(f.vals), heap("parquet.readCounter"), srcPos, rd, vPage, vDefs, curNV
+//@   ensures[C10] err == nil ==> (rfault ==> old(rfault))
+//@   ensures[C01,C04] err == nil ==> #f.vals == old(#f.vals) + pg.N
 //@ loop (*StringField).Read#1
 //@   invariant (rfault ==> old(rfault)) && dyn(rr) == typeid("*bytes.Buffer") && payload(rr) != 0
+//@   invariant[C01,C04] 0 <= j && j <= pg.N && #f.vals == old(#f.vals) + j && sameOrFresh(f.vals)
+//@ func (*StringOptionalField).Read
+//@   verify[C01]
+//@   requires f != nil && external(r)
+//@   free-requires 1 <= f.MaxLevels.Def && f.MaxLevels.Def <= 15 && f.MaxLevels.Rep <= 15 && (f.repeated ==> 1 <= f.MaxLevels.Rep)
+// (arrays of different element types never alias in Go; the verifier's heap merges them by SMT sort)
+//@   free-requires ref(f.vals) == 0 || (ref(f.vals) != ref(f.Defs) && ref(f.vals) != ref(f.Reps))
+//@   modifies f, HA(f.vals), HA(f.Defs), HA(f.Reps), heap("parquet.readCounter"), srcPos, rd, vPage, vDefs, curNV
+//@   ensures[C10] err == nil ==> (rfault ==> old(rfault))
+//@   ensures[C01,C04] err == nil && old(#f.vals) == 0 ==> #f.vals == nonNull(f)
 //@ loop (*StringOptionalField).Read#1
 //@   invariant (rfault ==> old(rfault)) && dyn(rr) == typeid("*bytes.Buffer") && payload(rr) != 0
+//@   invariant[C01,C04] 0 <= j && j <= nonNull(f) && #f.vals == old(#f.vals) + j && sameOrFresh(f.vals)
 
 //@ func (indices).rep
 //@   modifies HA(i)
